@@ -205,7 +205,23 @@ func (x *Exec) stringConst(s string, t types.Type) Val {
 func (x *Exec) get(st *State, fr *Frame, v ssa.Value) Val {
 	switch v := v.(type) {
 	case *ssa.Const:
-		return x.constVal(v)
+		cv := x.constVal(v)
+		if cv.K == KSlice && st != nil && v.Value != nil && v.Value.Kind() == constant.String {
+			// the bytes of short string literals are known (literal rows are never written)
+			if lit := constant.StringVal(v.Value); len(lit) > 0 && len(lit) <= 8 {
+				key, el := x.sliceHeap(cv.Typ)
+				h := st.heap(key, x.P.ss.heapSort(el, true))
+				var eqs []string
+				for j := 0; j < len(lit); j++ {
+					eqs = append(eqs, sx("=", sx("select", sx("select", h, sArr(cv.T)), fmt.Sprint(j)), fmt.Sprint(int(lit[j]))))
+				}
+				f := and(eqs...)
+				if !st.factSet[f] {
+					st.assume(f)
+				}
+			}
+		}
+		return cv
 	case *ssa.Function:
 		return Val{K: KFunc, Fn: &Closure{Fn: v}, Typ: v.Type()}
 	case *ssa.Global:
@@ -690,7 +706,15 @@ func (x *Exec) simple(st *State, fr *Frame, in ssa.Instruction) {
 	case *ssa.MakeMap, *ssa.MapUpdate, *ssa.Range, *ssa.Next, *ssa.Select, *ssa.Send, *ssa.MakeChan:
 		bail("%T is outside the subset", in)
 	case *ssa.Index:
-		bail("array value indexing is outside the subset")
+		a := x.get(st, fr, in.X)
+		if a.K != KSlice || !isString(a.Typ) {
+			bail("array value indexing is outside the subset")
+		}
+		idx := x.get(st, fr, in.Index)
+		x.check(st, fr, "index", fmt.Sprintf("string-index-in-range@%s", x.P.pos(in.Pos())), and(sx("<=", "0", idx.T), sx("<", idx.T, sLen(a.T))), in.Pos())
+		v := x.load(st, x.elemPtr(a, idx.T))
+		x.define(st, fr, in, v)
+		st.assume(ss.rangeFact(in.Type(), fr.vals[in].T, st.top))
 	default:
 		bail("unsupported instruction %T", in)
 	}
